@@ -63,12 +63,15 @@ func TestVX_C10_SM2(t *testing.T) {
 					"CheckOnCurve":   func() string { return fmt.Sprint(sm2.CheckOnCurve(px, py)) },
 					"TestPrivateKey": func() string { return fmt.Sprint(sm2.TestPrivateKey(d)) },
 					"ZA":             func() string { z, e := sm2.ZA(id, px, py); return fmt.Sprintf("%x %v", z, e) },
-					"Sign":           func() string { a, b, e := sm2.Sign(id, px, py, stream(k), d, msg); return fmt.Sprintf("%x %x %v", a, b, e) },
-					"SignZa":         func() string { a, b, e := sm2.SignZa(stream(k), d, za, msg); return fmt.Sprintf("%x %x %v", a, b, e) },
-					"SignHashed":     func() string { a, b, e := sm2.SignHashed(stream(k), d, e); return fmt.Sprintf("%x %x %v", a, b, e) },
-					"Verify":         func() string { ok, e := sm2.Verify(id, px, py, msg, rr, ss); return fmt.Sprint(ok, e) },
-					"VerifyZa":       func() string { ok, e := sm2.VerifyZa(px, py, za, msg, rr, ss); return fmt.Sprint(ok, e) },
-					"VerifyHashed":   func() string { ok, e := sm2.VerifyHashed(px, py, e, rr, ss); return fmt.Sprint(ok, e) },
+					"Sign": func() string {
+						a, b, e := sm2.Sign(id, px, py, stream(k), d, msg)
+						return fmt.Sprintf("%x %x %v", a, b, e)
+					},
+					"SignZa":       func() string { a, b, e := sm2.SignZa(stream(k), d, za, msg); return fmt.Sprintf("%x %x %v", a, b, e) },
+					"SignHashed":   func() string { a, b, e := sm2.SignHashed(stream(k), d, e); return fmt.Sprintf("%x %x %v", a, b, e) },
+					"Verify":       func() string { ok, e := sm2.Verify(id, px, py, msg, rr, ss); return fmt.Sprint(ok, e) },
+					"VerifyZa":     func() string { ok, e := sm2.VerifyZa(px, py, za, msg, rr, ss); return fmt.Sprint(ok, e) },
+					"VerifyHashed": func() string { ok, e := sm2.VerifyHashed(px, py, e, rr, ss); return fmt.Sprint(ok, e) },
 				}
 				want := map[string]string{
 					"DerivePublic": fmt.Sprintf("%x %x <nil>", px0, py0), "CheckOnCurve": "true", "TestPrivateKey": "0",
